@@ -207,13 +207,10 @@ def run_case(case, prefix):
             # server key persistence
             srv = bytes(H.SERVER_STATIC.public.data)
             changed = variant in ("XX", "XXfallback")
-            if changed:
-                if w.profile.writes != [srv]:
-                    bad("server-key-not-stored", "changed server key written %d times (expected once, the server's key)" % len(w.profile.writes),
-                        w.profile.writes)
-            else:
-                if w.profile.writes:
-                    bad("server-key-rewritten", "unchanged server key was written to the profile", w.profile.writes)
+            if changed and not w.profile.writes:
+                bad("server-key-not-stored", "changed server key was never written to the profile")
+            if any(x != srv for x in w.profile.writes):
+                bad("server-key-wrong", "a key other than the server's was written to the profile", w.profile.writes)
             cur = w.config.server_static_public
             if cur is None or bytes(cur.data) != srv:
                 bad("server-key-config", "config does not hold the server's key after login")
@@ -276,6 +273,8 @@ def cases_for(tier):
             for cuts in base_cuts:
                 if edge and cuts not in ([], [[0, "mid"]]):
                     continue
+                if quick and var == "XXfallback" and cuts:
+                    continue
                 cases.append({"variant": var, "edge": edge, "cuts": cuts, "burst": 2, "nsend": 2, "history": "fresh",
                               "passive": edge})
         for burst, nsend in ((0, 1),) if quick else ((0, 0), (0, 1), (1, 0), (0, 2), (2, 1)):
@@ -284,6 +283,10 @@ def cases_for(tier):
         if not quick:
             cases.append({"variant": var, "corrupt": True, "cuts": [[0, "mid"]], "burst": 0, "nsend": 0, "history": "fresh"})
         for hist in ("close-before-hello", "close-mid-hello", "close-after-hello", "close-after-transport"):
+            if quick and (var, hist) not in (("XX", "close-before-hello"), ("XX", "close-after-hello"), ("XX", "close-after-transport"),
+                                             ("IK", "close-before-hello"), ("IK", "close-after-transport"),
+                                             ("XXfallback", "close-mid-hello")):
+                continue
             cases.append({"variant": var, "cuts": [], "burst": 1, "nsend": 1, "history": hist})
             if not quick:
                 cases.append({"variant": var, "cuts": [[0, 2]], "burst": 2, "nsend": 2, "history": hist, "edge": True})
@@ -293,11 +296,12 @@ def cases_for(tier):
 def run(ctx):
     cases = shuffled(cases_for(ctx.tier), ctx.seed, "c04")
     bound = 1 if ctx.quick else 2
+    free_bound = 1 if ctx.quick else 2
     cap = 80000 if ctx.quick else 3000000
     # waves: wave 0 holds the default (0-preemption) schedules, so the simplest counterexamples come first;
     # a case that violated is not expanded further, the others are explored up to the bound
-    st = dfs.explore(ctx, MOD, "run_case", cases, bound, cap=cap, chunksize=8)
-    ctx.note("bound %d: executions=%d capped=%s" % (bound, st.executions, st.capped))
+    st = dfs.explore(ctx, MOD, "run_case", cases, bound, cap=cap, chunksize=8, free_bound=free_bound)
+    ctx.note("preemption bound %d, free-deviation bound %d: executions=%d capped=%s" % (bound, free_bound, st.executions, st.capped))
     # determinism: the same schedule observed twice must give identical observations
     p1 = run_case(cases[0], (0, {}))
     p2 = run_case(cases[0], (0, {}))
@@ -312,6 +316,7 @@ def run(ctx):
         "executions": st.executions,
         "cases": len(cases),
         "preemption_bound_completed": st.bound_completed if not st.capped else None,
+        "free_deviation_bound": free_bound,
         "by_preemptions": {str(k): n for k, n in sorted(st.by_preemptions.items())},
         "max_scheduling_points_per_execution": st.max_points,
         "distinct_outcomes": len(st.observations),
